@@ -47,6 +47,16 @@ EVIDENCE = dict(
 WRITERS = ["model.Table", "rag", "rag-chunk", "htmldoc", "layout", "docx", "odt", "xlsx", "pptx"]
 
 
+def dedupe(cases):
+    seen, out = set(), []
+    for c in cases:
+        k = vlib.json.dumps(c, sort_keys=True)
+        if k not in seen:
+            seen.add(k)
+            out.append(c)
+    return out
+
+
 def run(ctx):
     q = ctx.tier == "quick"
     # R1 + R2 generation: invariants (RoundTrip, HeadingLevelOK, PrefixStable) and case emission in one exhaustive run
@@ -55,7 +65,7 @@ def run(ctx):
     # negative controls: the three implementation-shaped writers must be refuted
     for v in ("esc", "hdr", "merge"):
         ctx.tlc("MarkdownMC", "Markdown_mc_impl_%s.cfg" % v, expect_violation=True, workers=4)
-    cases = gen["cases"]
+    cases = dedupe(gen["cases"])
     if not cases:
         raise vlib.MachineryError("MarkdownMC emitted no cases")
     ctx.exhaustive = True
@@ -95,7 +105,7 @@ def run(ctx):
     ctx.extra["writer_runs"] = per
 
     # R3: random larger documents, per writer, validated by MarkdownTrace.tla
-    nreq, nseg = (4, 12) if q else (16, 40)
+    nreq, nseg = (4, 12) if q else (32, 60)
     rec = ctx.run_driver(["c15", "record"], [{"n": nseg, "writers": WRITERS} for _ in range(nreq)])
     byw = {}
     for r in rec:
@@ -103,7 +113,15 @@ def run(ctx):
             byw.setdefault(e.get("writer", "?"), []).append(e)
     if not byw:
         raise vlib.MachineryError("record driver logged no events")
-    for w, evs in sorted(byw.items()):
+    # one run over everything first; only a rejected trace is split by writer to find every rejected event
+    allev = [dict((k, v) for k, v in e.items() if k != "md") for w in sorted(byw) for e in byw[w]]
+    if ctx.validate_trace("MarkdownTrace", "MarkdownTrace.cfg", allev)["accepted"]:
+        ctx.traces_validated += len(allev)
+        ctx.evaluations += len(allev)
+        byw_iter = []
+    else:
+        byw_iter = sorted(byw.items())
+    for w, evs in byw_iter:
         rest = [dict((k, v) for k, v in e.items() if k != "md") for e in evs]
         mds = [e.get("md") for e in evs]
         runs = 0
